@@ -8,6 +8,10 @@ Rec == ndJsonDeserialize(IOEnv.TRACE)
 AsSet(q) == {q[i] : i \in 1..Len(q)}
 SameSteps(dec, log) == /\ Len(dec) = Len(log)
                        /\ \A k \in 1..Len(log) : Len(dec[k]) = Len(log[k]) /\ AsSet(dec[k]) = AsSet(log[k])
+\* what a serialisation can show of a program: function pointers (a scope's state initialiser / merge) are not part of it
+RECURSIVE Shown(_)
+Shown(body) == [i \in 1..Len(body) |->
+                  [k |-> body[i].k, v |-> IF body[i].k = "scope" THEN "-" ELSE body[i].v, b |-> Shown(body[i].b), e |-> Shown(body[i].e)]]
 VARIABLES l, pos
 tvars == <<evars, l, pos>>
 TraceInit == /\ prog = <<>> /\ script = <<>> /\ fault = <<"none", 0>>
@@ -17,7 +21,7 @@ Case == /\ Rec[l].ev = "case"
         /\ pos = Len(full.out) + 1            \* the previous run was consumed completely
         \* C15: the configuration can be serialised, the serialisation names every component with its
         \* nesting (the program can be read back from it), and a clone serialises identically
-        /\ Rec[l].ron_ok = 1 /\ Rec[l].clone_same = 1 /\ Rec[l].skel = Rec[l].prog
+        /\ Rec[l].ron_ok = 1 /\ Rec[l].clone_same = 1 /\ Rec[l].skel = Shown(Rec[l].prog)
         /\ prog' = Rec[l].prog /\ script' = Rec[l].script /\ fault' = Rec[l].fault
         /\ full' = RunProgX(Rec[l].prog, Rec[l].script, Rec[l].fault, Rec[l].rules, Rec[l].rootit)
         /\ pos' = 0
